@@ -2,3 +2,5 @@
 import Tcell.Model.Cell
 import Tcell.Model.CellOps
 import Tcell.Props.C08
+import Tcell.Props.C07
+import Tcell.Props.C15
